@@ -88,9 +88,12 @@ OUTER:
 		m.invalidateLatestSnapshotLOCKED()
 
 		stackCleanPrev = m.stackClean
-		if m.options.CachePersisted {
+		if m.options.CachePersisted && !m.stackDirtyBase.hasMergeOps() {
 			m.stackClean = m.stackDirtyBase
 		} else {
+			// Also when the stack holds unresolved merge operations:
+			// the lower level has them now, and a cached copy on top
+			// of it would fold every operand a second time.
 			m.stackClean = nil
 
 			stackDirtyBasePrev = m.stackDirtyBase
